@@ -257,7 +257,15 @@ impl<'a> Printer<'a> {
                 cols.iter().map(|c| c.text.clone()).collect::<Vec<_>>().join(", ")
             ),
             Step::Derive(items) => format!("derive {}", self.items(items)),
-            Step::Filter(e) => format!("filter {}", self.expr(e)),
+            Step::Filter(e) => {
+                // a bare argument starting with a sign would be parsed as `filter - x` (function-calls.md)
+                let s = self.expr(e);
+                if s.starts_with('-') || s.starts_with('+') {
+                    format!("filter ({s})")
+                } else {
+                    format!("filter {s}")
+                }
+            }
             Step::Sort(keys) => {
                 let parts: Vec<String> = keys
                     .iter()
